@@ -1323,7 +1323,7 @@ PROPS = {
              "the origin's status, header and body)"
              " The reverse-proxy clients send an X-Original-Protocol header of their own naming another protocol: the origin must see exactly one, the endpoint's"
              " The origins write their response heads in four or five pieces 15 ms apart (inside the status line, inside the header block, before the final CRLF)",
-        explanation="theorems demux_precedence, download_accept_iff, download_exact, download_completes, upload_accept_iff, else_400, "
+        explanation="theorems demux_precedence, disabled_channels_never_selected, original_protocol_not_forgeable, download_never_exceeds, download_accept_iff, download_exact, download_completes, upload_accept_iff, else_400, "
                     "post_other_path_400, upload_done, upload_counts, x_original_protocol_present about TT/Model/Services.lean",
         trusted=["Rust's u32 FromStr as modelled by parseU32 (optional '+', digits, range)", "http crate Uri::path()",
                  "the reverse-proxy destination is settings.reverse_proxy.server_address by construction (read from reverse_proxy.rs, "
